@@ -4,6 +4,7 @@ CONSTANTS
   MaxCells = 5
   MaxD = 2
   AllowEmptyBd = FALSE
+  WithReps = FALSE
   Mode = "vine"
 VIEW View
 INVARIANT InvWellFormed
